@@ -682,6 +682,10 @@ def name_text_disagreement(text, pytext, names, bindings) -> tuple[str, str | No
         return "unary-minus-power", sreal
     if sympy_agrees_text(small, names, bindings):
         return f"same-in-sympy:{root_class(shape.split('(')[0])}", sreal
+    exc_name = sympy_text_raises(small, names)
+    if exc_name:
+        # plain SymPy raises while auto-evaluating the faithfully translated expression
+        return f"same-in-sympy:raises-{exc_name}", sreal
     # does the failure depend on the spelling (whitespace, leading zeros, identifier form)?
     normal = ast.unparse(tree)
     if not string_fails(G.real_text_from_python(normal, names), normal, names, bindings, extras=False):
@@ -715,6 +719,28 @@ def classify_printed_text(text: str, pairs) -> tuple[str, str, str | None]:
 def _partial_order(names: list[str], k: int) -> list[str]:
     order = list(names)
     return [order.pop(k % len(order)) for _ in range(len(order))] if order else order
+
+
+def sympy_text_raises(node, names) -> str | None:
+    """Name of the exception plain SymPy raises for the faithfully translated expression, if it is
+    one of SymPy's internal failures (unbounded recursion, failed internal assertion)."""
+    try:
+        T.from_ast(node, names)
+    except (RecursionError, AssertionError) as e:
+        return type(e).__name__
+    except Exception:  # noqa: BLE001
+        return None
+    return None
+
+
+def sympy_build_raises_recursion(t) -> bool:
+    try:
+        T.from_tree(t)
+    except RecursionError:
+        return True
+    except Exception:  # noqa: BLE001
+        return False
+    return False
 
 
 def sympy_agrees_tree(t, bindings, kind: str, order_seed: int) -> bool:
@@ -849,7 +875,12 @@ def _name_tree_failure(t, bindings, f, order_seed, via_shape):
         sig = f"print-parse|{cls}|{mech}{stage}"
     else:
         sig = f"{w.kind}|{w.cls}|{X.shape(small)}{stage}"
-        if w.kind in ("eval", "partial", "simplify", "build") and sympy_agrees_tree(small, bindings, w.kind, order_seed):
+        if w.kind == "build" and w.cls.startswith("raises:RecursionError") and sympy_build_raises_recursion(small):
+            # SymPy itself recurses without bound while auto-evaluating the faithfully translated
+            # expression (e.g. Mod(2 - M, -K - 1) over positive integer symbols): one mechanism
+            sig = "build|same-in-sympy:raises-RecursionError"
+            detail = "plain SymPy raises RecursionError for the faithfully translated expression"
+        elif w.kind in ("eval", "partial", "simplify", "build") and sympy_agrees_tree(small, bindings, w.kind, order_seed):
             sig = f"{w.kind}|same-in-sympy:{root_class(small[0])}"
             culprit = _floor_printed_as_identity(small, bindings)
             detail = "SymPy returns the same value for the faithfully translated expression"
